@@ -85,6 +85,8 @@ class Scenario:
             more += ["-m"]
         if fl.get("info_export"):
             more += ["--info-export", fl["info_export"]]
+        if fl.get("compile_commands"):
+            more += ["--compile-commands"]
         pre = ["-v"] * fl.get("verbose", 0)
         args = inv.get("args", {})
         if inv.get("subcommand") == "clean":
